@@ -123,6 +123,8 @@ type EpochHooks struct {
 	OnPrepared func()
 	OnSpeciate func()
 	OnYield    func(tag string)
+	// KeepHooks, when it returns true after the turnover, leaves the hooks installed
+	KeepHooks func() bool
 }
 
 // StepEpoch assigns fitness for the current generation, records the snapshot, turns the epoch over with the
@@ -153,7 +155,14 @@ func StepEpoch(c *RunCtx, w *World, withRec bool, eh *EpochHooks, lib func(strin
 		hooks.Yield = eh.OnYield
 	}
 	genetics.Verif = hooks
-	defer func() { genetics.Verif = prev }()
+	defer func() {
+		if eh != nil && eh.KeepHooks != nil && eh.KeepHooks() {
+			// reproduction goroutines are still alive: they go on reading the hook variable, so it is left alone
+			// (the scenario deals with them and restores the hooks itself)
+			return
+		}
+		genetics.Verif = prev
+	}()
 	lib("NextEpoch", func() {
 		snap.Err = w.Exec.NextEpoch(w.Ctx, w.Gen, w.Pop)
 	})
